@@ -68,6 +68,7 @@ type c14Run struct {
 	pol     verifrt.Policy
 	nextClean int
 	nested  bool
+	lateJoin bool // the goroutines are joined by the first-registered cleanup: they keep calling *T methods while rapid runs the cleanups
 }
 
 func (r *c14Run) runOps(t *rapid.T, inv *c14Inv, g int, ops []int) {
@@ -127,25 +128,34 @@ func (r *c14Run) section(t *rapid.T, inner bool) {
 	pol := r.pol
 	pol.Seed += uint64(len(r.invs)) * 7919
 	r.invs = append(r.invs, inv)
-	s := verifrt.Begin(pol, 2000)
+	s := verifrt.Begin(pol, 4000)
+	finish := func() {
+		s.Join()
+		s.End()
+		inv.deadlock, inv.overrun, inv.steps, inv.tryFails = s.Deadlock, s.Overrun, s.StepCount(), s.TryFails
+		inv.fp = schedFingerprint(s.Trace)
+		for _, l := range inv.logs {
+			for _, o := range l {
+				if o.K == opCleanup {
+					inv.cleanReg = append(inv.cleanReg, o.CleanID)
+				}
+				if o.K == opContext {
+					inv.ctxs = append(inv.ctxs, o.OutCtx)
+				}
+			}
+		}
+	}
+	if r.lateJoin {
+		// registered first, so it runs last: until then the goroutines run concurrently with rapid's cleanup phase
+		t.Cleanup(finish)
+	}
 	for g := 1; g < len(r.ops); g++ {
 		g := g
 		s.Go(func() { r.runOps(t, inv, g, r.ops[g]) })
 	}
 	r.runOps(t, inv, 0, r.ops[0])
-	s.Join()
-	s.End()
-	inv.deadlock, inv.overrun, inv.steps, inv.tryFails = s.Deadlock, s.Overrun, s.StepCount(), s.TryFails
-	inv.fp = schedFingerprint(s.Trace)
-	for _, l := range inv.logs {
-		for _, o := range l {
-			if o.K == opCleanup {
-				inv.cleanReg = append(inv.cleanReg, o.CleanID)
-			}
-			if o.K == opContext {
-				inv.ctxs = append(inv.ctxs, o.OutCtx)
-			}
-		}
+	if !r.lateJoin {
+		finish()
 	}
 }
 
@@ -193,7 +203,7 @@ func scenarioC14(rc *RunCtx) {
 	mon.collect() // anything written before this run is not ours
 	nG := t.Int("c14.ng", 1, 4)
 	sigPct := []int{0, 8, 20}[t.Weighted("c14.sigpct", 3, 4, 2)]
-	r := &c14Run{pol: genPolicy(t), nested: t.Chance("c14.nested_cleanup", 40)}
+	r := &c14Run{pol: genPolicy(t), nested: t.Chance("c14.nested_cleanup", 40), lateJoin: t.Chance("c14.late_join", 30)}
 	nsig := 0
 	for g := 0; g <= nG; g++ {
 		n := t.Int("c14.nops", 1, 6)
@@ -205,6 +215,9 @@ func scenarioC14(rc *RunCtx) {
 				nsig++
 			} else {
 				k = []int{opHelper, opName, opLog, opLogf, opFailed, opContext, opCleanup, opContext, opCleanup, opFailed}[t.Pick("c14.op", 10)]
+				if r.lateJoin && g > 0 && k == opContext {
+					k = opCleanup // during the cleanup phase Context() legitimately returns a different (cancelled) context
+				}
 			}
 			ops = append(ops, k)
 		}
@@ -241,7 +254,10 @@ func scenarioC14(rc *RunCtx) {
 		}
 		desc = append(desc, fmt.Sprintf("g%d:[%s]", g, strings.Join(s, " ")))
 	}
-	rc.Sample = fmt.Sprintf("policy=%s seed=%d custom=%v v=%v checks=%d ops=%s verdict=%s sections=%d", policyNames[r.pol.Kind], r.pol.Seed, useCustom, fl.Verbose, fl.Checks, strings.Join(desc, " "), tb.verdict(), len(r.invs))
+	rc.Sample = fmt.Sprintf("policy=%s seed=%d custom=%v lateJoin=%v v=%v checks=%d ops=%s verdict=%s sections=%d", policyNames[r.pol.Kind], r.pol.Seed, useCustom, r.lateJoin, fl.Verbose, fl.Checks, strings.Join(desc, " "), tb.verdict(), len(r.invs))
+	if r.lateJoin {
+		rc.Inc("probe.goroutines_running_during_cleanup_phase")
+	}
 	rc.Tracef("%s", rc.Sample)
 	rc.Inc("policy." + policyNames[r.pol.Kind])
 	rc.Inc("verdict." + tb.verdict())
